@@ -129,7 +129,10 @@ def register3(reg):
                  {'self': 'Ctx', 'exp': 'func:PARSE', 'prefix': pfx, 'omitsep': 'bool'}, ret='None',
                  requires=REQ + [f'spec_islist({TOP}.cst)'], defaults={'prefix': None, 'omitsep': False},
                  invariants={0: SHAPE + [f'{TOP}.cutseen == {OTOP}.cutseen', f'spec_islist({TOP}.cst)']},
-                 ensures=[*SHAPE, ('property', f'{TOP}.cutseen == {OTOP}.cutseen'), f'spec_islist({TOP}.cst)'],
+                 ensures=[*SHAPE, ('property', f'{TOP}.cutseen == {OTOP}.cutseen'), f'spec_islist({TOP}.cst)',
+                          # C05 "a join commits after each separator": the repetition ends normally only where the separator
+                          # itself does not match (once it matched, a failing element makes the repetition fail)
+                          *([('property', f'not out_ok(prefix, spec_fresh(spec_fresh({TOP})))')] if variant == '' else [])],
                  raises={'FailedParse': [f'top_only({S}, {OS})', f'spec_same_text({OTOP}, {TOP})',
                                          ('property', f'{TOP}.cutseen')]},
                  propagates=[GROW])
